@@ -335,6 +335,8 @@ pub struct PlanInfo {
     pub nodes: Vec<Node>,
     /// ids of the top-level nodes in registration order (barriers skipped)
     pub top: Vec<usize>,
+    /// top-level nodes whose registration call was rejected (set by the invariant checker)
+    pub rejected: Vec<usize>,
 }
 
 fn mask(v: &[u8]) -> u8 {
